@@ -402,6 +402,48 @@ def r8_row_cut_siblings(ctx):
         r.violation(k, la, "update_secret computes the start of the preserved tail as %s but delete_secret as %s: after find_row changed its meaning only one of them was adapted, so one of them cuts the file in the wrong place" % (ea, eb), work=2)
 
 
+USER_DATA = "sos_vault::secret::UserData"
+
+
+def r9_user_data_rebuild(ctx):
+    """When a secret gets file attachments the file manager rebuilds its
+    UserData (the attachment fields get their checksums) and storage overwrites
+    the secret with the copy: the copy must carry over every part of the
+    original user data (fields, comment, recovery note)."""
+    ws = ctx.ws
+    r = ctx.rule("C01-R9", "a rebuilt UserData carries over every part of the original",
+                 floor=1, kind="K5 field/accessor coverage of a copy")
+    adt = ws.adts.get(USER_DATA)
+    fns = ws.find_fns(r"ExternalFileManager::write_update_checksum$")
+    if not adt or not fns:
+        if ctx.config == "workspace":
+            r.anchor_missing("UserData / ExternalFileManager::write_update_checksum")
+        return
+    parts = [f["name"] for f in adt["variants"][0]["fields"]]
+    f = fns[0]
+    got = set()
+    builds = False
+    for b, i, t in f.calls():
+        c = t.get("callee") or ""
+        if "secret::UserData::" in c:
+            nm = cname(t)
+            if nm in parts:
+                got.add(nm)
+            if nm.startswith("set_") or nm.startswith("new") or nm in ("push", "fields_mut", "default"):
+                builds = True
+    rd, _wr = idioms.fields_touched(ws, f, USER_DATA)
+    got |= rd
+    k = f.root + "|copies-user-data"
+    if not builds and not got:
+        r.ok(k, cfg.loc(f.main), "write_update_checksum no longer rebuilds a UserData (nothing to carry over)", work=1)
+        return
+    miss = [p_ for p_ in parts if p_ not in got]
+    if miss:
+        r.violation(k, cfg.loc(f.main), "the UserData rebuilt for a secret with new attachments never reads `%s` of the original: that part of what the user wrote is lost as soon as a file is attached" % "`, `".join(miss), work=len(parts))
+    else:
+        r.ok(k, cfg.loc(f.main), "the rebuilt UserData reads %s of the original" % sorted(got), work=len(parts))
+
+
 def run(ctx):
     ctx.explanation = (
         "Pairing/ordering, sibling-agreement and SQL rules on the write path of folder contents: (R1) every mutator of "
@@ -421,3 +463,4 @@ def run(ctx):
     r6_no_partial_io(ctx)
     r7_upsert_complete(ctx)
     r8_row_cut_siblings(ctx)
+    r9_user_data_rebuild(ctx)
